@@ -15,6 +15,7 @@ Step(ev) ==
       [] ev.e = "CtxExpired" -> d' = [d EXCEPT !.expired = TRUE] /\ UNCHANGED viol
       [] ev.e = "DialRet" -> d' = [d EXCEPT !.returned = TRUE] /\ Judge(ev, RetViolW(ev.k = "err", ev.n, ev.m, IF ev.err = "1" THEN 1 ELSE 0, ev.g = "waited" \/ ev.err = "waited"))
       [] ev.e = "Echo" -> Judge(ev, IF ev.n = 0 THEN {"C14.connection_not_usable_in_both_directions"} ELSE {}) /\ UNCHANGED d
+      [] ev.e = "ChildFds" -> Judge(ev, IF ev.n > 0 THEN {"C14.descriptor_left_behind"} ELSE {}) /\ UNCHANGED d
       [] ev.e = "Census" -> Judge(ev, CensusViol(ev.n, ev.m)) /\ UNCHANGED d
       [] ev.e = "Panic" -> Judge(ev, {"C14.panic"}) /\ UNCHANGED d
       [] ev.e = "Quiescent" -> Judge(ev, IF ev.err # "" THEN {} ELSE EndViol(ev.n, TRUE)) /\ UNCHANGED d
